@@ -9,7 +9,9 @@
                bit 3 = unsigned; tools/crtp-dissector.lua get_param_types gives the same table:
                0 INT8, 1 INT16, 2 INT32, 8 UINT8, 9 UINT16, 10 UINT32, 6 FLOAT] (3/11 = 64 bit, 7 double)
      ro[p], pers[p] (extended type "persistent"), group[p], init[p] (bytes the device held when
-     the connection was complete), updcbs = sequence of [id, scope "param"|"group"|"all", ref]
+     the connection was complete), updcbs = sequence of [id, scope "param"|"group"|"all", ref, script, reg0]:
+     the update callbacks of the run; reg0 = registered at the start; script = <<kind, target>> what the callback
+     does when it runs: "nop" | "removeSelf" | "remove" target | "add" target (through the public API)
    Parameter p has wire index p-1 (16 bit little endian, V2 protocol  [dis: varid = le_uint 2 bytes]).
    p = 0 stands for a name that is not in the table.
 
@@ -26,8 +28,10 @@
                                                 answers the device had emitted before
      down   : [kind "ans"|"ntf"|"dup", chan, data, w] packets the device / link emitted (w = wire index answered;
                                                 "dup" = a second copy of the answer to request w, delivered later)
-     rxs    : [chan, data, upds, cbs]           packets the library dispatched, with what was invoked
-              upds : [cb, p, arg, cache, get]   update callback cb called for parameter p
+     rxs    : [chan, data, upds, cbs, before]   packets the library dispatched, with what was invoked;
+                                                before = update callbacks registered when the dispatch began
+              upds : [cb, p, arg, cache, get, ops]  update callback cb called for parameter p; ops = the
+                                                registrations it changed: <<"remove"|"add", id>>
               cbs  : [rid, pay]                 one-shot reply callback of request rid called
      gots   : [rid, p, val, nrx]                get_value results (nrx = packets dispatched before)
      ext    : (dev, lib)                        extended type the device answered / persistent mark in the library *)
@@ -181,6 +185,10 @@ Applies(cfg, cb, p) == \/ cb.scope = "all"
 CbById(cfg, id) == LET s == {i \in DOMAIN cfg.updcbs : cfg.updcbs[i].id = id}
                    IN IF s = {} THEN [id |-> id, scope |-> "none", ref |-> 0] ELSE cfg.updcbs[CHOOSE i \in s : TRUE]
 CountUpd(r, id) == Cardinality({i \in DOMAIN r.upds : r.upds[i].cb = id})
+\* registrations added or removed while the packet was dispatched (reading of C07, DESIGN 3.1(2): a callback
+\* registered throughout is called exactly once per answer, one added or removed meanwhile at most once)
+Touched(r) == UNION {{r.upds[i].ops[j][2] : j \in DOMAIN r.upds[i].ops} : i \in DOMAIN r.upds}
+SeqRange(q) == {q[i] : i \in DOMAIN q}
 CountCb(r, rid) == Cardinality({i \in DOMAIN r.cbs : r.cbs[i].rid = rid})
 
 RxClause(cfg, k, r, down, issued, calls) ==
@@ -200,13 +208,14 @@ RxClause(cfg, k, r, down, issued, calls) ==
          \* a second copy of an answer that was already delivered: to nobody, nothing again
          IF d.kind = "dup" THEN (IF r.upds # <<>> \/ r.cbs # <<>> THEN "DuplicateDelivered" ELSE "ok")
          \* update callbacks: only for the parameter and value this packet carries
-         ELSE IF \E i \in DOMAIN r.upds : ~vb \/ r.upds[i].p # p \/ ~Applies(cfg, CbById(cfg, r.upds[i].cb), p)
+         ELSE IF \E i \in DOMAIN r.upds : \/ ~vb \/ r.upds[i].p # p \/ ~Applies(cfg, CbById(cfg, r.upds[i].cb), p)
+                                          \/ r.upds[i].cb \notin SeqRange(r.before) \cup Touched(r)
          THEN "SpuriousUpdate"
          ELSE IF \E i \in DOMAIN r.upds : ~SameTyped(cfg.type[p], r.upds[i].arg, x) THEN "UpdateValue"
-         ELSE IF isAns /\ vb /\ \E i \in DOMAIN cfg.updcbs :
-                     Applies(cfg, cfg.updcbs[i], p) /\ CountUpd(r, cfg.updcbs[i].id) # 1
+         ELSE IF isAns /\ vb /\ \E c \in SeqRange(r.before) \ Touched(r) :
+                     Applies(cfg, CbById(cfg, c), p) /\ CountUpd(r, c) # 1
          THEN "UpdateOncePerAnswer"
-         ELSE IF ~isAns /\ \E i \in DOMAIN cfg.updcbs : CountUpd(r, cfg.updcbs[i].id) > 1
+         ELSE IF \E i \in DOMAIN cfg.updcbs : CountUpd(r, cfg.updcbs[i].id) > 1
          THEN "UpdateOncePerAnswer"
          ELSE IF isAns /\ vb /\ \E i \in DOMAIN r.upds :
                      ~SameTyped(cfg.type[p], r.upds[i].cache, x) \/ ~SameTyped(cfg.type[p], r.upds[i].get, x)
